@@ -1,7 +1,7 @@
 (* Model of attribute write/delete on ONE object (property C02).
 
-   Transcribed from /repo (after "fix: a compact attribute replacement that does not fit leaves the
-   cached header unchanged"):
+   Transcribed from /repo (tree at "fix: return chunked hyperslabs in selection order", dd0af4c; includes the B-tree
+   duplicate-key and the fractal-heap usable-size repairs):
      attribute_write.go              writeAttribute, writeCompactAttribute, upsertAttributeMessage,
                                      transitionToDenseAttributes, writeDenseAttribute, deleteAttribute,
                                      deleteCompactAttributeFromHeader, deleteDenseAttributeImpl
@@ -54,7 +54,12 @@ Record params := mkParams {
   p_info   : N;   (* length of the Attribute Info message: 2 + 2*offsetSize = 18 *)
   p_idxcap : N;   (* calculateMaxRecords: (4096 - 10) / 11 = 371 *)
   p_maxobj : N;   (* MaxManagedObjectSize = 65536 *)
-  p_hcap   : N    (* object bytes a direct block holds on disk: 65536 - (5 + 8 + 2) - 4 = 65517 *)
+  p_hcap   : N;   (* object bytes a direct block holds on disk: 65536 - (5 + 8 + 2) - 4 = 65517 *)
+  p_ovf_err : bool (* what a heap overflow ([HFull]) does.  false = the current tree: the call returns
+                      success and the dense storage is damaged ([Broken]).  true = the tree with the two
+                      proposed repairs (notes/fixes/dense-heap-overflow-refused.patch: WriteAt/WriteToFile
+                      refuse a heap that outgrew its direct block; C15's usable-block-size patch): the call
+                      returns an error and nothing is written. *)
 }.
 
 (* ------------------------------------------------------------------ encoded message length *)
@@ -146,9 +151,13 @@ Fixpoint idx_insert_sorted (rc : N * hid) (ix : idx) : idx :=
   | x :: r => if fst rc <=? fst x then rc :: x :: r else x :: idx_insert_sorted rc r
   end.
 
-(* InsertRecord: if len(records) >= maxRecords -> ErrBTreeNodeFull (no duplicate check) *)
+(* InsertRecord: a record with the same hash present -> ErrBTreeRecordExists;
+   len(records) >= maxRecords -> ErrBTreeNodeFull *)
 Definition idx_insert (P : params) (rc : N * hid) (ix : idx) : option idx :=
-  if p_idxcap P <=? N.of_nat (List.length ix) then None else Some (idx_insert_sorted rc ix).
+  match idx_search (fst rc) ix with
+  | Some _ => None
+  | None => if p_idxcap P <=? N.of_nat (List.length ix) then None else Some (idx_insert_sorted rc ix)
+  end.
 
 (* UpdateRecord: first record with that hash gets the new heap id; error when none *)
 Fixpoint idx_update (h : N) (id : hid) (ix : idx) : option idx :=
@@ -182,7 +191,10 @@ Inductive hins := HOk (hp : heap) (id : hid) | HErr | HFull.
    cut off when the block is serialised (prefix 15 + checksum 4 bytes are not accounted for); beyond the
    raw block size InsertObject switches the in-memory heap to an indirect root, puts the object into a
    second block that WriteAt / WriteToFile never writes, and encodes offset 65536+x into two bytes.
-   In both cases the call returns success and the stored attribute is damaged (see [Broken]). *)
+   In both cases the call returns success and the stored attribute is damaged (see [Broken]).
+   (Since "fix: count the block prefix and checksum when checking fractal heap capacity" the first
+   window is gone: the Go check uses the usable size, i.e. [p_hcap], and everything beyond it takes the
+   indirect-root path.) *)
 Definition heap_insert (P : params) (hp : heap) (a : attr) : hins :=
   let sz := msg_size a in
   if sz =? 0 then HErr
@@ -268,7 +280,8 @@ Definition transition (attrs : list attr) (a : attr) : state * res :=
   match daw_add_all [] [] heap_empty (attrs ++ [a]) with
   | TErr => (Compact attrs, RErr)
   | TPanic => (Compact attrs, RPanic)
-  | TFull => if p_limit P <? p_base P + (4 + p_info P) then (Compact attrs, RErr) else (Broken, ROk)
+  | TFull => if p_ovf_err P then (Compact attrs, RErr)          (* daw.WriteToFile refuses *)
+             else if p_limit P <? p_base P + (4 + p_info P) then (Compact attrs, RErr) else (Broken, ROk)
   | TOk ix hp => if p_limit P <? p_base P + (4 + p_info P) then (Compact attrs, RErr) else (Dense ix hp, ROk)
   end.
 
@@ -310,7 +323,7 @@ Definition write_dense (ix : idx) (hp : heap) (a : attr) : state * res :=
           | Some hp1 =>
             match heap_insert P hp1 a with
             | HErr => (st, RErr)                   (* nothing was written back: old value kept *)
-            | HFull => (Broken, ROk)
+            | HFull => if p_ovf_err P then (st, RErr) else (Broken, ROk)
             | HOk hp2 id2 =>
               match idx_update h id2 ix with Some ix' => (Dense ix' hp2, ROk) | None => (st, RErr) end
             end
@@ -319,7 +332,7 @@ Definition write_dense (ix : idx) (hp : heap) (a : attr) : state * res :=
     | None =>
       match heap_insert P hp a with
       | HErr => (st, RErr)
-      | HFull => (Broken, ROk)
+      | HFull => if p_ovf_err P then (st, RErr) else (Broken, ROk)
       | HOk hp' id =>
         match idx_insert P (h, id) ix with Some ix' => (Dense ix' hp', ROk) | None => (st, RErr) end
       end
@@ -435,4 +448,6 @@ Definition NoHashCollision (name_hash : bytes -> N) (ns : list bytes) : Prop :=
 
 (* the parameter values of the current source tree for a dataset whose non-attribute messages take
    [base] bytes (datatype + dataspace + layout of a contiguous int32 rank-1 dataset: 58) *)
-Definition go_params (base : N) : params := mkParams base 255 8 18 371 65536 65517.
+Definition go_params (base : N) : params := mkParams base 255 8 18 371 65536 65517 false.
+(* the same with the two heap repairs applied *)
+Definition go_params_repaired (base : N) : params := mkParams base 255 8 18 371 65536 65517 true.
